@@ -76,6 +76,23 @@ fn check(case: &SemCase, _net0: &Net, f: &F) -> Verdict {
                 call_ok!("C15", case, "model_check_formula", model_check_formula(text, g)),
             )
         };
+        // the sanitising batch entry point on [f, ~~~f, ~f] (heights small, large, medium): position i
+        // is the sanitised result of formula i
+        if !extended && k == depth {
+            let texts = [text.clone(), format!("(~(~(~{text})))"), format!("(~{text})")];
+            let refs: Vec<&str> = texts.iter().map(|t| t.as_str()).collect();
+            let batch = call_ok!("C15", case, "model_check_multiple_formulae", model_check_multiple_formulae(refs, g));
+            for (i, t) in texts.iter().enumerate() {
+                let single = call_ok!("C15", case, "model_check_formula", model_check_formula(t, g));
+                if batch.get(i) != Some(&single) {
+                    return Verdict::Fail(fail(
+                        "C15:sanitised-batch-position",
+                        format!("k={k}: model_check_multiple_formulae on {texts:?}: position {i} is not the sanitised result of `{t}`"),
+                        case,
+                    ));
+                }
+            }
+        }
         // canonical encoding without auxiliary variables
         let canonical = g.symbolic_context().as_canonical_context();
         let plain_graph = match SymbolicAsyncGraph::new(&net.bn) {
@@ -270,7 +287,7 @@ impl Property for C15 {
         "C15"
     }
     fn rule(&self) -> String {
-        "random network (in 40 % of the cases the graph is additionally restricted by the caller to a random non-empty subset of its valid colours, as a user would do after an earlier analysis) x closed plain or extended formula x k in {depth, depth+1, depth+3}: the sanitised result lives in the canonical symbolic context (same variable names/order as SymbolicAsyncGraph::new(network)), supports set operations with that graph, equals the raw result point-wise (64 colours, 3 settings of extra variables), and is BDD-equal across all k. Deterministic stage (large results): unknown functions of arity 6-8, generated 7-8-variable networks in which every update function is unknown (56-64 parameter bits) and five parametrised bundled models x fixed and generated formulae: the sanitised result is over the canonical variable set, equals the raw result moved there by SymbolicContext::transfer_from (whole-set), supports set operations with SymbolicAsyncGraph::new(network), and is BDD-equal for k in {depth, depth+1, depth+3}; result sizes are recorded (class large-results:sanitised-bdd-nodes). Non-trivial: nesting depth >= 1 and the result is neither empty nor full for some sampled colour.".into()
+        "random network (in 40 % of the cases the graph is additionally restricted by the caller to a random non-empty subset of its valid colours, as a user would do after an earlier analysis) x closed plain or extended formula x k in {depth, depth+1, depth+3}: the sanitised result lives in the canonical symbolic context (same variable names/order as SymbolicAsyncGraph::new(network)), supports set operations with that graph, equals the raw result point-wise (64 colours, 3 settings of extra variables), and is BDD-equal across all k; for plain formulae the sanitising batch entry point on [f, ~~~f, ~f] returns at position i the sanitised result of formula i. Deterministic stage (large results): unknown functions of arity 6-8, generated 7-8-variable networks in which every update function is unknown (56-64 parameter bits) and five parametrised bundled models x fixed and generated formulae: the sanitised result is over the canonical variable set, equals the raw result moved there by SymbolicContext::transfer_from (whole-set), supports set operations with SymbolicAsyncGraph::new(network), and is BDD-equal for k in {depth, depth+1, depth+3}; result sizes are recorded (class large-results:sanitised-bdd-nodes). Non-trivial: nesting depth >= 1 and the result is neither empty nor full for some sampled colour.".into()
     }
     fn assumptions(&self) -> Vec<String> {
         vec!["same trusted base as C01".into()]
